@@ -29,6 +29,11 @@ def cases_for(ctx, t, depth, rng):
             for style in ("tuple", "pair", "linear"):
                 cs.append({"op": "flatten", "tree": t, "depth": depth, "d": d, "levels": levels, "style": style,
                            "via": "tensor" if style == "linear" else rng.choice(["tensor", "fiber"])})
+                if style != "linear" and rng.random() < (0.7 if levels >= 2 else 0.3) and classify_tree(t) == "canonical":
+                    # the same round trip under a leaf default of 2 (a stored 2 is no content, a stored 0 is)
+                    def remap(p):      # no stored default: the 2s become 0s (genuine content under default 2)
+                        return {"k": "L", "v": 0 if p["v"] == 2 else p["v"]} if p["k"] == "L" else {"k": "F", "e": [[c, remap(q)] for c, q in p["e"]]}
+                    cs.append(dict(cs[-1], tree=remap(t), dflt=2, via=rng.choice(["tensor", "fiber", "fiber"])))
             for style in ("absolute", "relative"):
                 cs.append({"op": "merge", "tree": t, "depth": depth, "d": d, "levels": levels, "style": style, "fn": rng.choice(["sum", "max"]),
                            "via": rng.choice(["tensor", "fiber"])})
